@@ -4,6 +4,7 @@ package main
 // which alternatives are feasible, take one and queue the siblings.
 
 import (
+	"strconv"
 	"fmt"
 	"os"
 	"runtime"
@@ -30,6 +31,13 @@ type Bounds struct {
 	ConcretiseMax int  `json:"concretise_max"`
 	SolverMs      int  `json:"solver_timeout_ms"`
 }
+
+var wallFactor = func() int {
+	if f, err := strconv.Atoi(os.Getenv("VERIF_WALL_FACTOR")); err == nil && f > 0 {
+		return f
+	}
+	return 3
+}()
 
 func defaultBounds() Bounds {
 	return Bounds{Unwind: 4, MaxDepth: 64, MaxSteps: 4_000_000, Preempt: 0, MaxYields: 3, MapOrders: 1, Procs: 1,
@@ -794,7 +802,9 @@ func (ex *Explorer) runOne(sv *Solver, prefix []dec) {
 			ex.cond.Broadcast()
 		}
 	}
-	if res.Paths >= job.B.MaxPaths || time.Since(ex.start) > time.Duration(job.B.MaxWallS)*time.Second {
+	// the wall budget guards against runaway explorations; it is scaled (default x3, VERIF_WALL_FACTOR) so that a machine
+	// busy with other work does not turn a finished-in-time job into an "undecided"
+	if res.Paths >= job.B.MaxPaths || time.Since(ex.start) > time.Duration(job.B.MaxWallS*wallFactor)*time.Second {
 		ex.stop = true
 		ex.cond.Broadcast()
 	}
